@@ -196,6 +196,10 @@ def check_c10(prop, tier):
     work = scratch(prop)
     rnd = random.Random(seed())
     try:
+        # the design: in the driver model a dry run never changes a disk variable (action property), for all interleavings
+        st0 = tlc('MC_Push', constants={'Paths': PATHS_C, 'W': 2, 'Universe': '<- U_dry', 'FailUpTo': 0},
+                  cfg_body='INIT MCInit\nNEXT MCNext\nINVARIANT SameAsRef\nPROPERTY DryWritesNothing\n', tag='push-dry', workers=12)
+        res.add_tlc(st0, 'MC_Push/U_dry')
         out, st = enumerate_scenarios(res, 'dry-scenarios', 'TreesSmall' if tier == 'quick' else 'TreesAll', 'TRUE', 2, 'Cfgs_dry', work)
         lines = [l for l in open(out, errors='replace') if l.startswith('"{')]
         os.unlink(out)
@@ -401,6 +405,10 @@ def check_c15(prop, tier):
     work = scratch(prop)
     rnd = random.Random(seed())
     try:
+        # the design: in the driver model an inode that exists at the start is never written (create only after unlink)
+        st0 = tlc('MC_Push', constants={'Paths': PATHS_C, 'W': 2, 'Universe': '<- U_all', 'FailUpTo': 0},
+                  cfg_body='INIT MCInit\nNEXT MCNext\nINVARIANT LinkedInodesImmutable\n', tag='push-inodes', workers=12)
+        res.add_tlc(st0, 'MC_Push/U_all')
         out, st = enumerate_scenarios(res, 'twin-scenarios', 'TreesSmall' if tier == 'quick' else 'TreesAll', 'TRUE', 2, 'Cfgs_push', work, 'TRUE')
         lines = [l for l in open(out, errors='replace') if l.startswith('"{')]
         os.unlink(out)
